@@ -4,6 +4,8 @@ import json, os
 V = os.path.dirname(os.path.dirname(os.path.abspath(__file__)))
 TECH = "machine-checked proof in Coq 8.16 over a hand-written executable model; model tied to the current source by a differential correspondence run (Go harness via -overlay vs vm_compute of the model) and, where noted, go/ast translators; property monitor evaluated in Coq on implementation traces"
 CLAIMED = {
+ "C18": ("Kernel-checked for every metadata, stored error set and failed-recipient list: no report for the null sender or without bounce pipeline; a report is sent without original sender, so reports never trigger reports; null return path, addressed to the sender; the per-recipient groups are exactly the failed recipients in order, under the address the sender used, with the stored status and a single-line diagnostic; a due report is always generated when every failed recipient has a status class (guaranteed by C16_queue_error_has_status). emitDSN is compared with the model on generated inputs, the report being parsed with the standard library's MIME parser; an integrated stream runs the real queue over several attempts. Partial: MIME multipart framing and header folding are go-message's and only checked well-formed on the implementation.",
+         "Trusted: Coq kernel, Go harness and its 30-line field parser, IDNA selection as recorded tables, hand-written model validated differentially; dates ignored."),
  "C01": ("Kernel-checked for every configuration, every set of recipients and every finite sequence of per-attempt fault plans (any stage x temp/perm/unclassified, atomic or per-recipient targets honouring the status contract): the queue records exactly the attempt's outcome per recipient; that outcome is 'delivered' iff the downstream committed for it; exactly one terminal outcome per recipient once the message left the queue; re-attempt only after a temporary/unclassified failure with the counter increasing by one; the message leaves the queue within max_tries attempts; enqueueing de-duplicates. The model is compared with the real queue driven by a scripted target and a recording bounce target, and the property itself is monitored on the implementation's traces (this found and led to two repairs: duplicate recipients, commit failure overwriting permanent statuses).",
          "Trusted: Coq kernel, Go harness, hand-written model of deliver/tryDelivery validated differentially; failure classes abstract; real remote/SMTP/LMTP targets behind the queue are covered by C09's model of their status keys, not by this check; timing (retry delays) is not modelled."),
  "C20": ("A complete executable model of the lexer, dispenser, parser, macro/snippet/import and environment expansion; kernel-checked for every input, file set and environment: the reader never panics (C20_no_panic), every accepted tree has only well-formed names and no macro/snippet declaration at any depth (C20_post_*), environment expansion leaves valid names alone; a generated theorem shows the model accepts the current shipped configuration files; model and parser.Read are compared (trees with line numbers, canonical print, re-read) on corpus, grammar-generated, mutated and random inputs. Partial: the print/parse round trip and fuel sufficiency (termination) are validated on model and implementation by the run, not yet proved in general.",
